@@ -2,12 +2,13 @@
 (* Every helper x status x preset x value class, and every Accept list of <= 3 entries. *)
 EXTENDS RuxRender, Json
 VARIABLE c
-Statuses == {200, 201, 204, 302, 400, 404, 500}
+Statuses == {200, 201, 204, 301, 302, 303, 307, 308, 400, 404, 500}
+RedirectCodes == {301, 302, 303, 307, 308}
 AcceptEntries == {"application/json", "application/xml", "text/xml", "text/plain", "image/png", "application/json;q=0.9", "*/*"}
 Strip(e) == IF e = "application/json;q=0.9" THEN "application/json" ELSE e
 Lists == UNION { [1..n -> AcceptEntries] : n \in 0..3 }
 Init == \/ \E h \in Helpers, s \in Statuses, p \in BOOLEAN, v \in VClasses :
-             /\ Applicable(h, v) /\ (h \in {"Redirect"} => s \in {301, 302}) /\ (h = "HTTPError" => s >= 400) /\ (s = 204 => h = "NoContent" \/ ~TakesStatus(h))
+             /\ Applicable(h, v) /\ (h \in {"Redirect"} <=> s \in RedirectCodes) /\ (h = "HTTPError" => s >= 400) /\ (s = 204 => h = "NoContent" \/ ~TakesStatus(h))
              /\ c = [t |-> "helper", h |-> h, status |-> s, preset |-> p, v |-> v]
         \/ \E l \in Lists : c = [t |-> "accept", l |-> l]
 Next == FALSE /\ c' = c
